@@ -1338,3 +1338,140 @@ Section CqlLex.
     - intros a IH Hwf rest r D H. cbn [cql_name_gen ctoks]. apply IH; auto.
   Qed.
 End CqlLex.
+
+(* ------------------------------------------------------------------ cqltype_to_python: literal_eval of the scanned tokens *)
+Definition is_name_tok (tok : str) : Prop := str_eqb tok LT = false /\ str_eqb tok GT = false /\ str_eqb tok CM = false.
+
+Lemma py_word : forall tok rest st top stack, is_name_tok tok -> st <> AfterElem ->
+  py_run (tok :: rest) st (top :: stack) = py_run rest AfterElem ((PStr tok :: top) :: stack).
+Proof.
+  intros tok rest st top stack (H1 & H2 & H3) Hst. unfold LT, GT, CM in *. cbn [py_run]. rewrite H1, H2, H3.
+  destruct st; [contradiction| |]; reflexivity.
+Qed.
+
+Lemma py_lt : forall rest stack, py_run (LT :: rest) AfterElem stack = py_run rest AtStart ([] :: stack).
+Proof. reflexivity. Qed.
+Lemma py_cm : forall rest stack, py_run (CM :: rest) AfterElem stack = py_run rest AfterComma stack.
+Proof. reflexivity. Qed.
+Lemma py_gt : forall rest st inner outer stack, st <> AfterComma ->
+  py_run (GT :: rest) st (inner :: outer :: stack) = py_run rest AfterElem ((PList (rev inner) :: outer) :: stack).
+Proof. intros rest st inner outer stack H. destruct st; [reflexivity|contradiction|reflexivity]. Qed.
+
+Lemma name_tok_first : forall c w, (code c =? 60)%N = false -> (code c =? 62)%N = false -> (code c =? 44)%N = false -> is_name_tok (c :: w).
+Proof.
+  intros c w H1 H2 H3. repeat split; simpl.
+  - destruct (Ascii.eqb_spec c "<"%char); [subst; discriminate|reflexivity].
+  - destruct (Ascii.eqb_spec c ">"%char); [subst; discriminate|reflexivity].
+  - destruct (Ascii.eqb_spec c ","%char); [subst; discriminate|reflexivity].
+Qed.
+
+Lemma alnum_not_punct : forall c, is_alnum_ c = true -> (code c =? 60)%N = false /\ (code c =? 62)%N = false /\ (code c =? 44)%N = false.
+Proof. intros c. destruct c as [[] [] [] [] [] [] [] []]; vm_compute; intros; repeat split; congruence. Qed.
+
+Lemma cword_name_tok : forall w, is_cword w = true -> w <> [] -> is_name_tok w.
+Proof.
+  intros w H Hn. destruct w as [|c w]; [contradiction|]. simpl in H. apply andb_true_iff in H. destruct H as [Hc _].
+  destruct (alnum_not_punct _ Hc) as (H1 & H2 & H3). apply name_tok_first; assumption.
+Qed.
+
+Lemma wf_name_tok : forall n, wf_cql_name n = true -> is_name_tok n.
+Proof.
+  intros n H. destruct (wf_name_cases n H) as [(H1 & H2 & _)|[q [E _]]].
+  - apply cword_name_tok; assumption.
+  - subst. apply name_tok_first; reflexivity.
+Qed.
+
+Section PyRun.
+  Variable fz : bool.
+
+  Definition pyrun_ok (t : ty) : Prop :=
+    wf_cql t = true -> forall rest st top stack, st <> AfterElem ->
+    py_run (ctoks fz t ++ rest) st (top :: stack) = py_run rest AfterElem ((rev (to_py fz t) ++ top) :: stack).
+
+  Lemma py_unary : forall kw a, is_name_tok kw -> pyrun_ok a -> wf_cql a = true ->
+    forall rest st top stack, st <> AfterElem ->
+    py_run ((kw :: LT :: ctoks fz a ++ [GT]) ++ rest) st (top :: stack)
+    = py_run rest AfterElem ((PList (to_py fz a) :: PStr kw :: top) :: stack).
+  Proof.
+    intros kw a Hk IH Hwf rest st top stack Hst. cbn [app]. rewrite py_word by assumption. rewrite py_lt.
+    rewrite <- app_assoc. rewrite IH by (auto; discriminate). cbn [app]. rewrite py_gt by discriminate.
+    rewrite app_nil_r, rev_involutive. reflexivity.
+  Qed.
+
+  Lemma py_wrap : forall (xt : list str) (x : list pyt),
+    (forall rest st top stack, st <> AfterElem -> py_run (xt ++ rest) st (top :: stack) = py_run rest AfterElem ((rev x ++ top) :: stack)) ->
+    forall rest st top stack, st <> AfterElem ->
+    py_run ((if fz then frozen_kw :: LT :: xt ++ [GT] else xt) ++ rest) st (top :: stack)
+    = py_run rest AfterElem ((rev (if fz then [PStr frozen_kw; PList x] else x) ++ top) :: stack).
+  Proof.
+    intros xt x Hx rest st top stack Hst. destruct fz; [|apply Hx; assumption].
+    cbn [app]. rewrite py_word; [|repeat split; reflexivity|assumption]. rewrite py_lt.
+    rewrite <- app_assoc. rewrite Hx by discriminate. cbn [app]. rewrite py_gt by discriminate.
+    rewrite app_nil_r, rev_involutive. reflexivity.
+  Qed.
+
+  Lemma py_seq : forall ts, Forall pyrun_ok ts -> forallb wf_cql ts = true -> ts <> [] ->
+    forall rest st top stack, st <> AfterElem ->
+    py_run (sepj (map (ctoks fz) ts) ++ rest) st (top :: stack) = py_run rest AfterElem ((rev (flat_map (to_py fz) ts) ++ top) :: stack).
+  Proof.
+    intros ts H. induction H as [|x l Hx Hl IH]; intros Hwf Hne rest st top stack Hst; [contradiction|].
+    simpl in Hwf. apply andb_true_iff in Hwf. destruct Hwf as [Hwx Hwl]. destruct l as [|y l'].
+    - cbn [map sepj flat_map]. rewrite app_nil_r. apply Hx; assumption.
+    - change (sepj (map (ctoks fz) (x :: y :: l'))) with (ctoks fz x ++ CM :: sepj (map (ctoks fz) (y :: l'))).
+      rewrite <- app_assoc. rewrite Hx by assumption. cbn [app]. rewrite py_cm.
+      rewrite IH; [|assumption|discriminate|discriminate].
+      change (flat_map (to_py fz) (x :: y :: l')) with (to_py fz x ++ flat_map (to_py fz) (y :: l')).
+      rewrite rev_app_distr. rewrite <- app_assoc. reflexivity.
+  Qed.
+
+  Lemma simple_name_tok : forall s, is_name_tok (cql_simple s).
+  Proof. destruct s; repeat split; reflexivity. Qed.
+
+  Lemma pyrun_ty : forall t, pyrun_ok t.
+  Proof.
+    apply ty_ind2; unfold pyrun_ok.
+    - intros s _ rest st top stack Hst. cbn [ctoks to_py app rev]. apply py_word; auto using simple_name_tok.
+    - intros a IH Hwf rest st top stack Hst. cbn [ctoks to_py]. rewrite py_unary; auto. repeat split; reflexivity.
+    - intros a IH Hwf rest st top stack Hst. cbn [ctoks to_py]. rewrite py_unary; auto. repeat split; reflexivity.
+    - intros k v IHk IHv Hwf rest st top stack Hst. cbn [ctoks to_py]. simpl in Hwf. apply andb_true_iff in Hwf. destruct Hwf as [Hk Hv].
+      cbn [app]. rewrite py_word; [|repeat split; reflexivity|assumption]. rewrite py_lt.
+      rewrite <- app_assoc. rewrite IHk by (auto; discriminate). cbn [app]. rewrite py_cm.
+      rewrite <- app_assoc. rewrite IHv by (auto; discriminate). cbn [app]. rewrite py_gt by discriminate.
+      rewrite app_nil_r. rewrite rev_app_distr, !rev_involutive. reflexivity.
+    - intros ts IH Hwf rest st top stack Hst. cbn [ctoks to_py]. simpl in Hwf.
+      apply py_wrap; auto. intros rest' st' top' stack' Hst'.
+      cbn [app]. rewrite py_word; [|repeat split; reflexivity|assumption]. rewrite py_lt.
+      destruct ts as [|x l].
+      + cbn [map sepj app flat_map]. rewrite py_gt by discriminate. reflexivity.
+      + rewrite <- app_assoc. rewrite py_seq; [|assumption|assumption|discriminate|discriminate].
+        cbn [app]. rewrite py_gt by discriminate. rewrite app_nil_r, rev_involutive. reflexivity.
+    - intros ks n fn ft IH Hwf rest st top stack Hst. cbn [ctoks to_py]. simpl in Hwf.
+      apply py_wrap; auto. intros rest' st' top' stack' Hst'. cbn [app rev]. apply py_word; auto using wf_name_tok.
+    - intros a d IH Hwf rest st top stack Hst. cbn [ctoks to_py]. simpl in Hwf. apply andb_true_iff in Hwf. destruct Hwf as [Ha Hd].
+      cbn [app]. rewrite py_word; [|repeat split; reflexivity|assumption]. rewrite py_lt.
+      rewrite <- app_assoc. rewrite IH by (auto; discriminate). cbn [app]. rewrite py_cm.
+      rewrite py_word; [| |discriminate].
+      2:{ unfold wf_dim in Hd. apply andb_true_iff in Hd. destruct Hd as [Hd _]. apply andb_true_iff in Hd. destruct Hd as [Hd1 Hd2].
+          apply cword_name_tok; [apply digit_alnum; assumption|intros E; subst; discriminate]. }
+      rewrite py_gt by discriminate. rewrite app_nil_r.
+      change (PStr d :: rev (to_py fz a)) with (rev [PStr d] ++ rev (to_py fz a)). rewrite <- rev_app_distr, rev_involutive. reflexivity.
+    - intros a IH Hwf rest st top stack Hst. cbn [ctoks to_py]. apply py_wrap; auto.
+    - intros a IH Hwf rest st top stack Hst. cbn [ctoks to_py]. apply IH; auto.
+  Qed.
+End PyRun.
+
+Theorem parse_cql_name : forall sep fz t, sep_ok sep -> wf_cql t = true ->
+  cqltype_to_python (cql_name_gen (lit "vector") sep fz t) = Some (to_py fz t).
+Proof.
+  intros sep fz t Hsep Hwf. unfold cqltype_to_python.
+  pose proof (clex_ty sep fz Hsep t Hwf [] [] I eq_refl) as HL. unfold nm in HL. rewrite !app_nil_r in HL. rewrite HL.
+  pose proof (pyrun_ty fz t Hwf [] AtStart [] [] ltac:(discriminate)) as HR. rewrite !app_nil_r in HR.
+  etransitivity; [exact HR|]. simpl. rewrite rev_involutive. reflexivity.
+Qed.
+
+Theorem strip_frozen_name : forall sep t, sep_ok sep -> wf_cql t = true ->
+  strip_frozen (cql_name_gen (lit "vector") sep true t) = Some (cname false t).
+Proof.
+  intros sep t Hsep Hwf. unfold strip_frozen. rewrite parse_cql_name by assumption.
+  rewrite strip_to_py by assumption. rewrite print_to_py. reflexivity.
+Qed.
